@@ -134,7 +134,8 @@ func machine(input OmegaInput) (output OmegaOutput) {
 		}
 	}
 
-	var u Memory
+	// u: the empty RAM, every page inaccessible
+	u := Memory{Pages: make(map[uint32]*Page)}
 	_, exitReason := DeBlobProgramCode(p)
 	// otherwise if deblob(p) = PANIC
 	if exitReason == ExitPanic {
